@@ -787,56 +787,39 @@ impl Entry {
         let current_relation = self.get_relation(idx).unwrap();
 
         let old_root = current_relation.0;
-        let new_root = relation.0;
-        // Preserve white the current relation has
-        let mut prev = new_root.first_child_or_token();
-        let mut new_head_len = 0;
+        // A copy of the relation that can be attached to this tree (the
+        // relation may be a handle into this or another field)
+        let new_root = SyntaxNode::new_root_mut(relation.0.green().into_owned());
+        let is_blank = |e: &SyntaxElement| e.kind() == WHITESPACE || e.kind() == NEWLINE;
+        let detach = |e: SyntaxElement| match e {
+            rowan::NodeOrToken::Node(n) => n.detach(),
+            rowan::NodeOrToken::Token(t) => t.detach(),
+        };
         // First, strip off any whitespace from the new relation
-        while let Some(p) = prev {
-            if p.kind() == WHITESPACE || p.kind() == NEWLINE {
-                new_head_len += 1;
-                prev = p.next_sibling_or_token();
-            } else {
-                break;
-            }
+        while let Some(e) = new_root.first_child_or_token().filter(is_blank) {
+            detach(e);
         }
-        let mut new_tail_len = 0;
-        let mut next = new_root.last_child_or_token();
-        while let Some(n) = next {
-            if n.kind() == WHITESPACE || n.kind() == NEWLINE {
-                new_tail_len += 1;
-                next = n.prev_sibling_or_token();
-            } else {
-                break;
-            }
+        while let Some(e) = new_root.last_child_or_token().filter(is_blank) {
+            detach(e);
         }
         // Then, inherit the whitespace from the old relation
-        let mut prev = old_root.first_child_or_token();
-        let mut old_head = vec![];
-        while let Some(p) = prev {
-            if p.kind() == WHITESPACE || p.kind() == NEWLINE {
-                old_head.push(p.clone());
-                prev = p.next_sibling_or_token();
-            } else {
-                break;
-            }
-        }
-        let mut old_tail = vec![];
-        let mut next = old_root.last_child_or_token();
-        while let Some(n) = next {
-            if n.kind() == WHITESPACE || n.kind() == NEWLINE {
-                old_tail.push(n.clone());
-                next = n.prev_sibling_or_token();
-            } else {
-                break;
-            }
-        }
-        new_root.splice_children(0..new_head_len, old_head);
-        let tail_pos = new_root.children_with_tokens().count() - new_tail_len;
-        new_root.splice_children(
-            tail_pos - new_tail_len..tail_pos,
-            old_tail.into_iter().rev(),
-        );
+        let copy = |e: &SyntaxElement| make_token(e.kind(), &e.to_string());
+        let old_children = old_root.children_with_tokens().collect::<Vec<_>>();
+        let old_head = old_children
+            .iter()
+            .take_while(|e| is_blank(e))
+            .map(copy)
+            .collect::<Vec<_>>();
+        let mut old_tail = old_children
+            .iter()
+            .rev()
+            .take_while(|e| is_blank(e))
+            .map(copy)
+            .collect::<Vec<_>>();
+        old_tail.reverse();
+        new_root.splice_children(0..0, old_head);
+        let end = new_root.children_with_tokens().count();
+        new_root.splice_children(end..end, old_tail);
         let index = old_root.index();
         self.0
             .splice_children(index..index + 1, vec![new_root.into()]);
